@@ -57,6 +57,7 @@ package storage
 // (rain/evaporation accumulators in m^3), volume >= 0 and 0 <= timeRemaining <= deltaT.
 
 //@ func storageWaterBalance(rainfallTS, petTS, inflowTS, demandTS, targetMinimumVolume, targetMinimumCapacity, initialVolume, initialLevel, initialArea, deltaT, nLVA, levels, volumes, areas, minRelease, maxRelease, volumeTS, outflowTS, rainfallVolume, evaporationVolume) returns (volume, level, area)
+//@   canary [C13.canary-storage] implies(rainfallTS.len > 0, volumeTS.at(0) == initialVolume)
 //@   kernel
 //@   states initialVolume, initialLevel, initialArea
 //@   noalias
